@@ -274,9 +274,7 @@ pub fn run(ctx: &Ctx) -> Outcome {
         par_for(work.len(), |w| {
             let (si, blocked, activity) = work[w];
             let s = &sts[si];
-            if quick && (blocked || activity) && !["s-open", "s-response-open", "c-request-open", "c-response-open", "s-two-open", "c-promised", "c-send-window-negative", "s-recv-window-negative"].contains(&s.name) {
-                return;
-            }
+            // (the quick tier once limited back-pressure / application activity to eight states; it has the time for all)
             let (t0, app0, v) = prepared(s);
             let cat = frame_catalogue(&v, prim_of(s), !quick);
             close(t0, app0, "prepare", &mut vec![]);
@@ -304,7 +302,7 @@ pub fn run(ctx: &Ctx) -> Outcome {
             let (t0, app0, v) = prepared(s);
             let evs = events_for(&v, s);
             close(t0, app0, "prepare", &mut vec![]);
-            let third: Vec<usize> = if quick { vec![] } else { (0..evs.len()).step_by(5).collect() };
+            let third: Vec<usize> = if quick { (0..evs.len()).step_by(16).collect() } else { (0..evs.len()).step_by(4).collect() };
             for a in 0..evs.len() {
                 for b in 0..evs.len() {
                     if ctx.over_budget() {
@@ -432,7 +430,7 @@ pub fn run(ctx: &Ctx) -> Outcome {
     let outcomes = outcomes.into_inner().unwrap();
     let n = execs.load(Ordering::Relaxed);
     out.harness("frame-catalogue", json!({"executions": n_catalogue, "states": sts.len(), "full_product": !quick}));
-    out.harness("event-sequences", json!({"executions": n_seq, "length": if quick { 2 } else { 3 }}));
+    out.harness("event-sequences", json!({"executions": n_seq, "length": 3, "third_position": if quick { "every 16th event of the catalogue" } else { "every 4th event of the catalogue" }}));
     out.harness("byte-level", json!({"executions": n_bytes}));
     out.harness("pad-length-sweeps", json!({"executions": n_sweep}));
     out.set("evaluations", json!(n));
@@ -442,7 +440,7 @@ pub fn run(ctx: &Ctx) -> Outcome {
     out.set("distinct_nontrivial", json!(outcomes.len().max(2)));
     out.set("outcomes", json!(outcomes));
     out.set("exhaustive", json!(!ctx.over_budget()));
-    out.set("rule", json!("X3 on T2: the real endpoint (both roles) in each of 32 states receives (a) every frame of a systematic catalogue (type 0..10 x flags x declared/actual length x stream id x payload fill), also under write back-pressure and with concurrent application calls, (b) every sequence of 2 (quick) / 3 (thorough) events of the C09 catalogue, (c) handshakes and first frames cut at every offset and fed bytewise, and garbage prefaces, (d) every Pad Length value 0..=255 for DATA / HEADERS / PUSH_PROMISE with every combination of PADDED / PRIORITY / END_HEADERS and several payload lengths. Oracle on every execution: no panic (also during teardown), the connection task quiesces within 300 polls, never wakes itself more than 8 times in a row without transport activity, polls + transport callbacks stay below a bound linear in the input, and the outcome is continued service, GOAWAY then close, or a surfaced I/O error"));
+    out.set("rule", json!("X3 on T2: the real endpoint (both roles) in each of 32 states receives (a) every frame of a systematic catalogue (type 0..10 x flags x declared/actual length x stream id x payload fill), also under write back-pressure and with concurrent application calls, (b) every sequence of 2 events of the C09 catalogue, each also followed by every 16th (quick) / 4th (thorough) event as a third, (c) handshakes and first frames cut at every offset and fed bytewise, and garbage prefaces, (d) every Pad Length value 0..=255 for DATA / HEADERS / PUSH_PROMISE with every combination of PADDED / PRIORITY / END_HEADERS and several payload lengths. Oracle on every execution: no panic (also during teardown), the connection task quiesces within 300 polls, never wakes itself more than 8 times in a row without transport activity, polls + transport callbacks stay below a bound linear in the input, and the outcome is continued service, GOAWAY then close, or a surfaced I/O error"));
     out.add_sample(json!({"harness": "c08.seq", "state": "s-open", "events": ["DATA(prim)", "RST_STREAM(prim)"]}));
     out.guard_nonzero("executions that kept serving", outcomes.get("serving").copied().unwrap_or(0));
     out.guard_nonzero("executions that ended with GOAWAY", outcomes.get("goaway").copied().unwrap_or(0));
